@@ -57,5 +57,5 @@ def run(ctx):
     ctx.only_callers('C14.abort', 'verify_total_difficulty', {'SendLastStateProofProcess::execute'}, 1)
 
     # reviewed reference of the envelope arithmetic (decision structure + value expressions, helpers inlined)
-    for r in ROOTS:
-        census.check(ctx, 'C14.ref', r)
+    from rules import census_fns
+    census_fns.run(ctx, 'C14')
